@@ -207,10 +207,12 @@ func (w *world) opTypedAppend(c *simChan) {
 	st := c.st()
 	mode := AppendMode(tp.Weighted([]int{5, 2, 2}))
 	n := tp.Weighted([]int{1, 6, 4, 2, 1, 1})
-	if w.c.Saturate && tp.Intn(3) == 0 {
-		n = 40 + tp.Intn(30)
+	if w.c.Saturate && tp.Intn(2) == 0 {
+		n = 60 + tp.Intn(40)
+		w.bulk = true
 	}
 	rows := w.genRows(c, st, n, mode, false, true)
+	w.bulk = false
 	base := uint64(0)
 	baseKind := kOK
 	switch tp.Weighted([]int{5, 3, 1}) {
@@ -573,10 +575,12 @@ func (w *world) opCompatAppend(c *simChan) {
 	st := c.st()
 	mode := AppendMode(tp.Weighted([]int{5, 2, 2}))
 	n := tp.Weighted([]int{1, 6, 4, 2, 1})
-	if w.c.Saturate && tp.Intn(3) == 0 {
-		n = 40 + tp.Intn(30)
+	if w.c.Saturate && tp.Intn(2) == 0 {
+		n = 60 + tp.Intn(40)
+		w.bulk = true
 	}
 	rows := w.genRows(c, st, n, mode, true, true)
+	w.bulk = false
 	w.stamp(c, rows)
 	recs := w.compatRecords(rows, 0, tp.Intn(2) == 0)
 	other := kOK
@@ -1118,6 +1122,10 @@ func (w *world) planBatchFor(c *simChan) ([]*batchItemPlan, *mstate) {
 	}
 	ns := st.clone()
 	changed := false
+	// one class per channel and call: items of different classes are committed
+	// as separate groups (in class order of first appearance), which would make
+	// one call several mutations
+	class := AppendBatchClass(tp.Intn(3))
 	staged := map[uint64]bool{}
 	var plans []*batchItemPlan
 	nItems := 1 + tp.Weighted([]int{5, 2, 1})
@@ -1235,7 +1243,7 @@ func (w *world) planBatchFor(c *simChan) ([]*batchItemPlan, *mstate) {
 				p.item.Committed = cm
 			}
 		}
-		p.item.Class = AppendBatchClass(tp.Intn(3))
+		p.item.Class = class
 		if p.wantOK {
 			if p.kind == "fresh" {
 				for _, r := range p.rows {
